@@ -47,7 +47,8 @@ ResultsOf(tb, cfg, names) ==
        schars |-> names[key[1]], pchars |-> names[ModName(key[2])], tchars |-> names[key[2]]] : key \in DOMAIN acc }
 
 \* observed frame: sequence of columns [name (chars), vals (one per row; MASKED = empty)]
-AxisNames == { <<"t","i","m","e">>, <<"z">>, <<"l","a","t">>, <<"l","o","n">> }
+\* o.axes = [t, z, y, x]: the column names the store was told to use for time / depth / latitude / longitude
+AxisNamesOf(o) == { o.axes.t, o.axes.z, o.axes.y, o.axes.x }
 ColSet(frame) == { frame[j] : j \in 1..Len(frame) }
 
 Bijections(A, B) == { f \in [A -> B] : \A a1, a2 \in A : f[a1] = f[a2] => a1 = a2 }
@@ -60,8 +61,8 @@ FrameOK(frame, tb, cfg, names, o) ==
         n    == NRows(tb)
         dataNames == IF o.write_data THEN { names[r.stream] : r \in R } ELSE {}
         cols == ColSet(frame)
-        axis == { c \in cols : c.name \in AxisNames }
-        data == { c \in cols : c.name \in dataNames /\ c.name \notin AxisNames }
+        axis == { c \in cols : c.name \in AxisNamesOf(o) }
+        data == { c \in cols : c.name \in dataNames /\ c.name \notin AxisNamesOf(o) }
         test == cols \ (axis \cup data)
     IN
     [ rows    |-> \A c \in cols : Len(c.vals) = n,
@@ -73,13 +74,13 @@ FrameOK(frame, tb, cfg, names, o) ==
                                    /\ NoCollision(R) => SafeOf(f[r].name, RawName(r)),
       axes    |-> /\ (~o.write_axes => axis = {})
                   /\ (o.write_axes /\ R # {}) =>
-                        /\ tb.hastime => \E c \in axis : c.name = <<"t","i","m","e">>
-                        /\ (tb.z # <<>>) => \E c \in axis : c.name = <<"z">>
-                        /\ (tb.lat # <<>>) => \E c \in axis : c.name = <<"l","a","t">>
-                        /\ (tb.lon # <<>>) => \E c \in axis : c.name = <<"l","o","n">>
+                        /\ tb.hastime => \E c \in axis : c.name = o.axes.t
+                        /\ (tb.z # <<>>) => \E c \in axis : c.name = o.axes.z
+                        /\ (tb.lat # <<>>) => \E c \in axis : c.name = o.axes.y
+                        /\ (tb.lon # <<>>) => \E c \in axis : c.name = o.axes.x
                   /\ \A c \in axis :
-                        LET src == CASE c.name = <<"t","i","m","e">> -> TimeOf(tb) [] c.name = <<"z">> -> tb.z
-                                     [] c.name = <<"l","a","t">> -> tb.lat [] OTHER -> tb.lon
+                        LET src == CASE c.name = o.axes.t -> TimeOf(tb) [] c.name = o.axes.z -> tb.z
+                                     [] c.name = o.axes.y -> tb.lat [] OTHER -> tb.lon
                         IN  IF src = <<>> THEN \A i \in 1..Len(c.vals) : c.vals[i] = NA      \* no such input: empty
                             ELSE Len(src) = Len(c.vals) /\ \A i \in 1..Len(src) : c.vals[i] \in {src[i], NA},
       \* one data column per stream that has a result: source values, at least on the rows of one of its results
@@ -95,10 +96,10 @@ SpecSafe(raw) == LET s == Sanitize(raw) IN IF Len(s) >= 1 /\ s[1] \notin Digits 
 SpecFrame(tb, cfg, names, o) ==
     LET R  == { r \in ResultsOf(tb, cfg, names) : Passes(r, o) }
         ax == IF o.write_axes /\ R # {}
-              THEN (IF tb.hastime THEN << [name |-> <<"t","i","m","e">>, vals |-> tb.t] >> ELSE <<>>)
-                   \o (IF tb.z # <<>> THEN << [name |-> <<"z">>, vals |-> tb.z] >> ELSE <<>>)
-                   \o (IF tb.lat # <<>> THEN << [name |-> <<"l","a","t">>, vals |-> tb.lat] >> ELSE <<>>)
-                   \o (IF tb.lon # <<>> THEN << [name |-> <<"l","o","n">>, vals |-> tb.lon] >> ELSE <<>>)
+              THEN (IF tb.hastime THEN << [name |-> o.axes.t, vals |-> tb.t] >> ELSE <<>>)
+                   \o (IF tb.z # <<>> THEN << [name |-> o.axes.z, vals |-> tb.z] >> ELSE <<>>)
+                   \o (IF tb.lat # <<>> THEN << [name |-> o.axes.y, vals |-> tb.lat] >> ELSE <<>>)
+                   \o (IF tb.lon # <<>> THEN << [name |-> o.axes.x, vals |-> tb.lon] >> ELSE <<>>)
               ELSE <<>>
         dt == IF o.write_data
               THEN SetToSeq({ [name |-> names[s], vals |-> tb.data[s]] : s \in { r.stream : r \in R } })
